@@ -15,6 +15,7 @@ import z3
 
 
 _ENUMS = {}
+_VAL_CACHE = {}
 
 
 class Ctx:
@@ -97,6 +98,18 @@ class Ctx:
             return t
         self._seen_val.add(key)
         self._keep.append(t)
+        # re-executed paths rebuild structurally identical terms (same AST id while the cached
+        # copy is alive): reuse the instantiated axioms instead of rebuilding them through the API
+        cached = _VAL_CACHE.get((self.mode, self.k, key))
+        if cached is not None and cached[0].eq(t):
+            self.axioms.extend(cached[1])
+            return t
+        n0 = len(self.axioms)
+        self._val_axioms(t)
+        _VAL_CACHE[(self.mode, self.k, key)] = (t, self.axioms[n0:])
+        return t
+
+    def _val_axioms(self, t):
         A = self.axioms
         il = self.intlike(t)
         A.append(z3.Implies(il, z3.And(self.floatable(t), z3.Not(self.is_str(t)), z3.Not(self.is_tuple(t)),
